@@ -32,6 +32,8 @@ structure St where
   env : Env := {}
   blk : Nat := 0
   tracks : List Track := []
+  lastIds : List Nat := []   -- vault ids after the previous block
+  maxId : Nat := 0           -- largest vault id seen so far in the sequence
 deriving Inhabited
 
 def init : St := {}
@@ -258,8 +260,13 @@ def handleBlock (st : St) (seq : String) (fs : List String) : St × List String 
                    r.offsets.any (fun o => w.offsets.get? o.1 != some o.2 && o.2 > max w.counter w.borrows.length) then ["slice_bounds"] else []
       let eff := if outcome == "panic" then [] else effectMonitors st.env w r
       let (tracks, live) := if outcome == "panic" then (st.tracks, []) else liveMonitors st w r
-      let mons := (sl ++ eff ++ live).map fun m => s!"MON\t{seq}\t{m}"
-      ({ st with blk := st.blk + 1, tracks := tracks }, diffs ++ mons)
+      -- ids are monotone and keys big-endian: a position that was not there after the previous block sorts after all seen so far
+      let ids := w.vaults.map (·.id)
+      let fresh := ids.filter (fun i => !st.lastIds.contains i)
+      let ord := if st.blk > 0 && fresh.any (· ≤ st.maxId) then ["store_order"] else []
+      let mons := (sl ++ eff ++ live ++ ord).map fun m => s!"MON\t{seq}\t{m}"
+      ({ st with blk := st.blk + 1, tracks := tracks, lastIds := if outcome == "panic" then ids else r.ids,
+                 maxId := ids.foldl max st.maxId }, diffs ++ mons)
     | _, _ => (st, [s!"BAD\t{seq}\tcannot parse block"])
   | [] => (st, [s!"BAD\t{seq}\tblock without =>"])
 
